@@ -255,7 +255,7 @@ def coq_eval(ctx, name, imports, defs, queries, timeout=1800):
     return vals
 
 
-def coq_eval_sharded(ctx, name, imports, case_terms, queries_of, shard=400, timeout=1800, max_chars=800000):
+def coq_eval_sharded(ctx, name, imports, case_terms, queries_of, shard=400, timeout=1800, max_chars=500000):
     """case_terms: list of Coq terms; evaluated in shards in parallel.  A shard holds at most `shard` cases and
     at most `max_chars` characters of term text (large cases: fewer per coqc, bounded memory).
     queries_of(listname) -> list of query strings over the shard list `listname`.
@@ -275,7 +275,8 @@ def coq_eval_sharded(ctx, name, imports, case_terms, queries_of, shard=400, time
         defs = "Definition cs := [\n%s\n].\n" % ";\n".join(terms)
         return off, coq_eval(ctx, "%s_%d" % (name, k), imports, defs, queries_of("cs"), timeout)
 
-    with cf.ThreadPoolExecutor(max_workers=12) as ex:
+    # at most 6 evaluations at a time: one can take several GB
+    with cf.ThreadPoolExecutor(max_workers=6) as ex:
         return list(ex.map(one, enumerate(shards)))
 
 
